@@ -345,6 +345,37 @@ def rule_foreign(program, ctx, prop=P, rid="C07.foreign"):
                                      "transaction aborts (or the process dies) the two stores disagree", text=f"def {meth}(...) :: ignores txn"))
 
 
+def rule_finally_return(program, ctx, prop=P, rid="C07.finally"):
+    ctx.rule(
+        rid,
+        "an engine error inside the event's transaction reaches `async with self.db.begin()` (which then rolls back): none of the functions that run inside it "
+        "(add_event, pre_save, post_save, process_tags and their overrides) leaves a `finally:` block through return / break / continue - that discards the exception in "
+        "flight, the transaction commits a partial event and the client is told OK",
+        floor=1,
+    )
+    n = 0
+    for ci in program.classes.values():
+        if ci.module.rel.startswith("<dep>"):
+            continue
+        for name in ("add_event", "pre_save", "post_save", "process_tags"):
+            fn = ci.methods.get(name)
+            if fn is None:
+                continue
+            n += 1
+            bad = False
+            for t in ast.walk(fn):
+                if isinstance(t, ast.Try) and t.finalbody:
+                    for x in [y for s_ in t.finalbody for y in ast.walk(s_)]:
+                        if isinstance(x, (ast.Return, ast.Break, ast.Continue)):
+                            bad = True
+                            ctx.bad(finding_at(prop, rid, x, f"{ci.node.name}.{name}: `{ast.unparse(x)[:30]}` inside `finally:` swallows whatever exception is propagating - a failed statement no "
+                                               "longer aborts the event's transaction"))
+            if not bad:
+                ctx.ok(rid, fn, f"{ci.node.name}.{name}: no jump out of a finally block")
+    if not n:
+        raise AnalysisError("no transaction-region methods found")
+
+
 def rule_isolation(program, ctx, prop=P, rid="C07.isolation"):
     ctx.rule(
         rid,
@@ -541,6 +572,7 @@ def run(program, ctx):
     rule_ctxmgr(program, ctx)
     rule_enqueue(program, ctx)
     rule_overrides(program, ctx)
+    rule_finally_return(program, ctx)
     ctx.not_decided += [
         "that SQLite WAL / PostgreSQL / LMDB deliver atomic commit and recovery after kill -9 (trusted engines)",
         "Python-level faults between commit and broadcast",
